@@ -135,13 +135,18 @@ impl Sc for Q {
 impl Sc for Iv {
     const ENGINE: Engine = Engine::Iv;
     fn rat(r: Rat) -> Iv {
-        let n = r.n as f64;
-        let d = r.d as f64;
-        debug_assert!(n.abs() < 9.0e15 && d.abs() < 9.0e15);
-        if r.d == 1 {
-            return Iv::pt(n);
+        fn enc_i(x: i64) -> Iv {
+            let f = x as f64;
+            if x.unsigned_abs() < (1u64 << 53) {
+                Iv::pt(f)
+            } else {
+                Iv::new(crate::q::next_down(f), crate::q::next_up(f))
+            }
         }
-        Iv::pt(n) / Iv::pt(d)
+        if r.d == 1 {
+            return enc_i(r.n);
+        }
+        enc_i(r.n) / enc_i(r.d)
     }
     fn f(x: f64) -> Iv {
         Iv::pt(x)
